@@ -56,8 +56,12 @@ def pdecode(s):
         return s, False
 
 
+_LETTER_ESC = re.compile(r"%(4[1-9a-fA-F]|5[0-9aA]|6[1-9a-fA-F]|7[0-9aA])")
+
+
 def is_redirect_like(key):
-    k = key.lower()
+    # a key is what it decodes to: '%75rl' is 'url' (only escaped letters matter for the names in question)
+    k = _LETTER_ESC.sub(lambda m: chr(int(m.group(1), 16)), key).lower()
     if k in REDIRECT_KEYS:
         return True
     for st in REDIRECT_STEMS:
